@@ -131,28 +131,33 @@ def run(chk: common.Check, tier: str):
     import genmodel as gm
     import grammar2coq as g2c
     from checks.c13 import tokens_set
-    c, _res = gm.case(g2c.read_grammar(FAMILY[0][0]))
-    pre = gm.prelude(tokens_set()) + """From Pegen Require Import Runtime.Exec Proofs.GrowAxb.
+    ties = [(FAMILY[0][0], [("a", "axb_meth")]), ("start: c NEWLINE\na: c 'x' | 'b'\nc: a\n", [("a", "ind_a"), ("c", "ind_c")])]
+    pre = gm.prelude(tokens_set()) + """From Pegen Require Import Runtime.Exec Proofs.GrowAxb Proofs.GrowIndirect.
 Definition only (m : ir_module) (x : meth) : ir_module :=
   {| i_header := i_header m; i_subheader := i_subheader m; i_class := i_class m; i_keywords := i_keywords m;
      i_soft_keywords := i_soft_keywords m; i_trailer := i_trailer m; i_meths := [x] |}.
-Definition axb_case_ok (c : grammar * N * egen) : bool :=
-  let '(g, fresh, e) := c in
+Definition tie_ok (c : grammar * N * egen * list (string * meth)) : bool :=
+  let '(g, fresh, e, ms) := c in
   gen_ok g fresh e &&
   match run_gen g fresh with
-  | inl m => match find_meth m "a" with
-             | Some ma => String.eqb (render (only m ma)) (render (only m axb_meth))
-             | None => false
-             end
+  | inl m => forallb (fun nm => match find_meth m (fst nm) with
+                                | Some ma => String.eqb (render (only m ma)) (render (only m (snd nm)))
+                                | None => false
+                                end) ms
   | inr _ => false
   end.
 """
-    bad = common.run_cases(chk, "axb", pre, gm.CASE_T, [c] if c else [], "axb_case_ok", shard=1, timeout=600)
+    cases = []
+    for text, ms in ties:
+        c, _res = gm.case(g2c.read_grammar(text))
+        if c:
+            cases.append(c[:-1] + ", [" + "; ".join(f'("{n}", {t})' for n, t in ms) + "])")
+    bad = common.run_cases(chk, "axb", pre, "(grammar * N * egen * list (string * meth))", cases, "tie_ok", shard=2, timeout=600)
     if bad is not None:
-        chk.oblige("instance of C02_A_Ax_b_returns_the_left_nested_tree_of_b_xstar: the method axb_meth of the theorem renders to the "
-                   "same text as the method a of the generator model's output for  start: a NEWLINE ; a: a 'x' | 'b'  (model analysis "
-                   "included), and that output equals the real generator's character by character (K-gen)",
-                   bool(c) and not bad, json.dumps(bad))
+        chk.oblige("instances of C02_A_Ax_b_returns_the_left_nested_tree_of_b_xstar and C02_indirect_cycle_entered_at_*: the methods "
+                   "of the theorems (axb_meth; ind_a, ind_c) render to the same text as the methods a / a, c of the generator model's "
+                   "output for  a: a 'x' | 'b'  and  a: c 'x' | 'b' ; c: a  (model analysis included), and those outputs equal the "
+                   "real generator's character by character (K-gen)", len(cases) == len(ties) and not bad, json.dumps(bad))
 
 
 def replay(path: str) -> int:
